@@ -24,7 +24,7 @@ class C11(Prop):
             "reference, constant key or string, followed by >= 1 mutating step; deep/cyclic shapes count by shape; distinct by case hash")
     ASSUMPTIONS = ["N = LIMIT+1 containers gets no verdict (the code counts node depth, the statement says 'nested deeper than the limit': "
                    "whether the innermost empty container of LIMIT+1 counts is left open)"]
-    REQUIRED_CLASSES = ["program", "deep_accept", "deep_refuse", "deep_with_siblings", "cyclic", "copy_of_reference", "copy_with_const_key", "non_recursive"]
+    REQUIRED_CLASSES = ["program", "deep_accept", "deep_refuse", "deep_with_siblings", "cyclic", "cyclic_through_api_reference", "deep_const_keys", "copy_of_reference", "copy_with_const_key", "non_recursive"]
 
     def budget(self, tier):
         return {"workers": 14, "examples": 500 if tier == "quick" else 12000}
@@ -32,9 +32,9 @@ class C11(Prop):
     def strategy(self, tier):
         prog = st.fixed_dictionaries({"kind": st.just("program"), "seeds": seed_trees(), "ops": op_records(OPS_BEFORE, 40),
                                       "which": st.integers(0, 4095), "after": op_records(OPS_AFTER, 25)})
-        deep = st.fixed_dictionaries({"kind": st.just("deep"), "rel": st.sampled_from([-1, 0, 2, 3, -2, 5]), "pattern": st.integers(0, 7),
+        deep = st.fixed_dictionaries({"kind": st.just("deep"), "rel": st.sampled_from([-1, 0, 2, 3, -2, 5]), "pattern": st.integers(0, 15),
                                       "leaf": st.booleans(), "siblings": st.sampled_from([0, 0, 1, 2, 7, 1000])})
-        cyc = st.fixed_dictionaries({"kind": st.just("cyclic"), "shape": st.sampled_from(["self", "two", "below_prefix"]),
+        cyc = st.fixed_dictionaries({"kind": st.just("cyclic"), "shape": st.sampled_from(["self", "two", "below_prefix", "api_self_reference", "api_reference_loop"]),
                                      "prefix": st.integers(1, 6), "pattern": st.integers(0, 7), "siblings": st.sampled_from([0, 1, 2])})
         return st.one_of(prog, prog, prog, prog, prog, prog, prog, prog, prog, prog, prog, prog, deep, cyc)
 
@@ -177,14 +177,56 @@ class C11(Prop):
                     raise Violation("a refused Duplicate left allocations behind", key="leak")
             if case.get("siblings"):
                 stats.cls("deep_with_siblings")
+            if case["pattern"] & 8 and case["pattern"] & 7:
+                stats.cls("deep_const_keys")
             stats.nontriv(["deep", n - limit, case["pattern"], case["leaf"], case.get("siblings", 0)], {"nested_containers": n, "limit": limit, "leaf": case["leaf"], "copied": bool(cp)})
         finally:
             if cp:
                 lib.cJSON_Delete(cp)
             lib.cJSON_Delete(root)
 
+    def run_api_cycle(self, lib, case, stats):
+        """cycles that the public API itself produces: a container holding a reference to itself or to an ancestor"""
+        shape = case["shape"]
+        obj_like = bool(case["pattern"] & 1)
+        outer = lib.cJSON_CreateObject() if obj_like else lib.cJSON_CreateArray()
+        inner = lib.cJSON_CreateObject()
+        lib.cJSON_AddItemToObject(inner, b"n", lib.cJSON_CreateNumber(1.0))
+        if obj_like:
+            lib.cJSON_AddItemToObject(outer, b"a", lib.cJSON_CreateString(b"x"))
+            lib.cJSON_AddItemToObject(outer, b"inner", inner)
+        else:
+            lib.cJSON_AddItemToArray(outer, lib.cJSON_CreateString(b"x"))
+            lib.cJSON_AddItemToArray(outer, inner)
+        holder = outer if shape == "api_self_reference" else inner
+        # the reference shares outer's child chain, which contains the holder: following it never ends
+        if (lib.shim_type(holder) & 0xFF) == 64:
+            ok = lib.cJSON_AddItemReferenceToObject(holder, b"loop", outer)
+        else:
+            ok = lib.cJSON_AddItemReferenceToArray(holder, outer)
+        if not ok:
+            lib.cJSON_Delete(outer)
+            raise Violation("harness: could not add the reference", key="harness")
+        mark = lib.ledger_serial()
+        cp = lib.cJSON_Duplicate(outer, 1)
+        stats.inner += 1
+        try:
+            if cp:
+                raise Violation("Duplicate returned a copy of a structure that refers to itself through a reference node (%s)" % shape, key="cycle-accepted")
+            if lib.ledger_live_since(mark) != 0:
+                raise Violation("Duplicate of a self-referencing structure left allocations behind", key="leak")
+            stats.cls("cyclic")
+            stats.cls("cyclic_through_api_reference")
+            stats.nontriv(["cyclic", shape, case["pattern"] & 1], {"cycle": shape})
+        finally:
+            if cp:
+                lib.cJSON_Delete(cp)
+            lib.cJSON_Delete(outer)
+
     def run_cyclic(self, lib, case, stats):
         shape = case["shape"]
+        if shape.startswith("api_"):
+            return self.run_api_cycle(lib, case, stats)
         prefix = case["prefix"]
         root = lib.shim_make_chain(prefix + 2, case["pattern"], 0, case.get("siblings", 0))
         # the innermost container is empty; close a cycle by writing child directly
